@@ -127,8 +127,53 @@ def reordering_stream(ctx, n, ncases):
         M.op('decref', v)
 
 
+def autoref_stream(ctx, n, order, tts):
+    """the same questions through dd.autoref (`quantify`, `exist`, `forall` of the wrapper; the
+    runner hands the variables over as a one-shot iterator, as the signature allows), including
+    a declared variable outside the support"""
+    from .C12 import abuild, by_name
+    rng = ctx.rng
+    s = ctx.session(f'autoref quantify n={n} order={order}')
+    A = 'a0'
+    s.op(A, 'new', {v: l for v, l in zip(range(n + 1), list(order) + [n])})
+    H = s.impl.handles
+    a = s.impl.amgr[A]
+    case = lambda: dict(stream=s.label, lines=list(s.lines))  # noqa: E731
+    for t in tts:
+        f = abuild(s, A, t, n)
+        if rng.random() < 0.5:
+            g = s.op(A, 'fapply', 'not', f, None)
+            s.op(A, 'drop', f)
+            f, t = g, T.neg(t, n)
+        for qs in subsets(n + 1):
+            if len(qs) > 2 and rng.random() < 0.5:
+                continue
+            qs = list(qs)
+            rng.shuffle(qs)
+            fa = rng.random() < 0.5
+            r = s.op(A, 'quantify', f, qs, fa)
+            inner = [v for v in qs if v < n]
+            expect = T.forall(t, n, inner) if fa else T.exists(t, n, inner)
+            ctx.case(('autoref', n, tuple(order), t, tuple(qs), fa), bool(set(inner) & set(T.support(t, n))))
+            ctx.count('autoref-quantify')
+            if r is None:
+                ctx.violation('C03:rejected', f'autoref quantify({qs}, forall={fa}) rejected', case)
+                continue
+            got = by_name(a._bdd, H[A][r].node, n)
+            if got != expect:
+                ctx.violation('C03:wrong-result',
+                              f'autoref quantify({qs}, forall={fa}) of {t:#x} gave {got:#x}, expected {expect:#x}', case)
+            s.op(A, 'drop', r)
+        if by_name(a._bdd, H[A][f].node, n) != t:
+            ctx.violation('C03:operand-changed', 'operand changed', case)
+        s.op(A, 'drop', f)
+    s.op(A, 'gc')
+
+
 def run(ctx):
     q = ctx.quick
+    for order in ctx.rng.sample(gen.orders(3), 2 if q else 6):
+        autoref_stream(ctx, 3, order, ctx.rng.sample(range(256), 4 if q else 40))
     reordering_stream(ctx, 4, 6 if q else 60)
     reordering_stream(ctx, 5, 3 if q else 30)
     reordering_stream(ctx, 6, 30 if q else 150)
